@@ -43,12 +43,16 @@ THEOREMS = [
     "OllamaVerif.C17.F17c_openai_stream_error_swallowed",
     "OllamaVerif.C17.F17d_silent_end_no_final",
 ]
+# Which behaviour the oracle models: 0 = the pinned /repo; bit 0 = proposed_fixes/C17-F17ab.patch applied,
+# bit 1 = proposed_fixes/C17-F17c.patch applied.  One edit when the lead applies a fix (or VERIF_C17_VARIANT).
+VARIANT = 0
 OVERLAY = {"server/zz_verif_c17_test.go": "server/zz_verif_c17_test.go"}
 
 
 def run(ctx):
     ctx.lean_check(MODULES, THEOREMS)
-    env = {"VERIF_N": ctx.scale(6, 9), "VERIF_TEXTS": ctx.scale(12, 60), "VERIF_SAMPLES": ctx.scale(12, 64)}
+    import os
+    env = {"VERIF_C17_VARIANT": os.environ.get("VERIF_C17_VARIANT", VARIANT), "VERIF_N": ctx.scale(6, 9), "VERIF_TEXTS": ctx.scale(12, 60), "VERIF_SAMPLES": ctx.scale(12, 64)}
     if ctx.replay:
         env["VERIF_REPLAY"] = ctx.replay_line_file()
     rc, out, outdir = ctx.go_test("./server/", OVERLAY, "^TestVerifC17$", env=env, timeout=1500)
